@@ -300,7 +300,7 @@ def run(U, rep, tier):
 
 
 # ------------------------------------------------------------------------------------------------ R13.4
-def _doc(variant, unit=True, concrete_quats=None):
+def _doc(variant, unit=True, concrete_quats=None, concrete_pos=None):
   """A mock MJCF body tree.  Every numeric attribute is symbolic; quaternions are unit by construction (unit=True) or
   GENERAL (MuJoCo normalises a `quat` attribute, so a legal document may spell any non-zero quaternion)."""
   from braxlint import refkin
@@ -315,7 +315,14 @@ def _doc(variant, unit=True, concrete_quats=None):
   def pose(kind):
     a = {}
     if kind in ('pos', 'both'):
-      a['pos'] = num(3, 'p')
+      if concrete_pos is not None:
+        # exact special offsets (components cancelling to 0, a zero component, axis-aligned): shortcuts that test a
+        # SUM or a single component instead of the whole vector show here
+        from braxlint.avn import Rat
+        cnt[0] += 1
+        a['pos'] = NumStr([Rat.lift(x) for x in concrete_pos[cnt[0] % len(concrete_pos)]])
+      else:
+        a['pos'] = num(3, 'p')
     if kind in ('quat', 'both'):
       cnt[0] += 1
       if concrete_quats is not None:
@@ -395,7 +402,8 @@ def geometry_preserved(U, rep, tier, rule='R13.4', nonunit=True):
       (a, b) for a in ('both', 'pos', 'quat', 'none') for b in ('both', 'pos', 'quat', 'none')]
   from fractions import Fraction as _F
   special = [(0, 1, 0, 0), (0, 0, 1, 0), (0, _F(3, 5), _F(4, 5), 0), (1, 0, 0, 0), (0, 0, 0, 1), (_F(3, 5), _F(4, 5), 0, 0), (0, 1, 0, 0)]
-  runs = [(v, True, None) for v in kinds] + ([(('both', 'both'), False, None)] if nonunit else []) + [(('quat', 'both'), True, special), (('both', 'quat'), True, special[1:])]
+  special_pos = [(_F(1, 4), _F(-1, 2), _F(1, 4)), (_F(1, 10), _F(-1, 10), 0), (0, 2, -2), (1, 0, 0), (0, 0, _F(3, 10)), (_F(-1, 5), 0, _F(1, 5))]
+  runs = [(v, True, None) for v in kinds] + ([(('both', 'both'), False, None)] if nonunit else []) + [(('both', 'both'), True, 'pos')] + [(('quat', 'both'), True, special), (('both', 'quat'), True, special[1:])]
   for variant, unit, cq in runs:
     bad = None
     for t in range(40):
@@ -412,7 +420,7 @@ def geometry_preserved(U, rep, tier, rule='R13.4', nonunit=True):
       avn.FIELD['sqrt_axiom'] = True
       try:
         I = new_interp(U.repo)
-        root = _doc(variant, unit, cq)
+        root = _doc(variant, unit, None if cq == 'pos' else cq, special_pos if cq == 'pos' else None)
         # reference world-relative poses BEFORE fusing: {leaf name: (anchor name, chain of frames)}
         want = {}
 
@@ -498,6 +506,11 @@ def geometry_preserved(U, rep, tier, rule='R13.4', nonunit=True):
                 'a `quat` attribute that is not normalised (legal MJCF: MuJoCo normalises it) scales the offsets of the fused '
                 'body\'s children by |q|^2: after mjcf._fuse_bodies %s' % bad, where=f.where(),
                 construct='the same mock documents with GENERAL (non-unit) quaternions')
+      continue
+    if cq == 'pos':
+      rep.check(bad is None, rule, 'fusing preserves geometry [exact special offsets: components cancelling to 0, zero components]',
+                'after mjcf._fuse_bodies %s (exact special positions such as "0.25 -0.5 0.25", "0.1 -0.1 0")' % bad, where=f.where(),
+                construct='pos attributes whose components sum to 0 or vanish singly; quaternions symbolic unit')
       continue
     if cq is not None:
       rep.check(bad is None, rule, 'fusing preserves geometry [exact half-turn / 3-4-5 orientations, bodies with %s / nested %s]' % variant,
